@@ -10,6 +10,7 @@ package c11
 import (
 	"encoding/json"
 	"fmt"
+	"runtime/debug"
 	"strings"
 
 	"verif/harness/internal/core"
@@ -49,7 +50,7 @@ func init() {
 
 type replayData struct {
 	Mode    string `json:"mode"` // case | pair
-	Cat     string `json:"cat"`
+	Key     string `json:"key"`
 	Case    *Case  `json:"case,omitempty"`
 	Base    *Case  `json:"base,omitempty"`
 	Variant *Case  `json:"variant,omitempty"`
@@ -58,17 +59,14 @@ type replayData struct {
 
 func violationOf(rd replayData) *core.Violation {
 	var p *problem
-	shape := ""
 	switch rd.Mode {
 	case "case":
 		ps, _, _ := judge(rd.Case)
-		p = hasCat(ps, rd.Cat)
-		shape = rd.Case.Root.Shape()
+		p = hasKey(ps, rd.Key)
 	case "pair":
 		_, _, ob := judge(rd.Base)
 		_, _, ov := judge(rd.Variant)
-		p = hasCat(interference(rd.Base, rd.Variant, rd.Dep, ob, ov), rd.Cat)
-		shape = rd.Base.Root.Shape()
+		p = hasKey(interference(rd.Base, rd.Variant, rd.Dep, ob, ov), rd.Key)
 	}
 	if p == nil {
 		return nil
@@ -76,11 +74,11 @@ func violationOf(rd replayData) *core.Violation {
 	b, _ := json.Marshal(rd)
 	what := p.Msg
 	if rd.Mode == "case" {
-		what += " | input " + rd.Case.String()
+		what += " | tree " + rd.Case.Root.Shape() + " | input " + rd.Case.String()
 	} else {
 		what += " | base " + rd.Base.String() + " | variant " + rd.Variant.String()
 	}
-	return &core.Violation{Property: prop, Key: p.key(shape), What: what, Replay: b}
+	return &core.Violation{Property: prop, Key: p.key(), What: what, Replay: b}
 }
 
 func replay(_ *core.Ctx, data json.RawMessage) []core.Violation {
@@ -97,31 +95,45 @@ func replay(_ *core.Ctx, data json.RawMessage) []core.Violation {
 // ---------- exploration ----------
 
 type explorer struct {
+	posCache  map[string][]pos
 	c         *core.Ctx
 	minimised map[string]int
 	samples   map[string]int
 }
 
-const minimiseCap = 25 // failing cases minimised per category and shard; the rest are counted
+const minimiseCap = 6 // failing cases minimised and reported per key and shard; the rest are counted
 
 func (e *explorer) report(cs *Case, ps []problem) {
 	seen := map[string]bool{}
 	for _, p := range ps {
-		if seen[p.Cat] {
+		k := p.key()
+		if seen[k] {
 			continue
 		}
-		seen[p.Cat] = true
+		seen[k] = true
 		e.c.Outcome("FAIL:" + p.Cat)
-		if e.minimised[p.Cat] >= minimiseCap {
+		if e.minimised[k] >= minimiseCap {
 			e.c.Count("failing_cases_not_minimised", 1)
 			continue
 		}
-		e.minimised[p.Cat]++
-		min := minimise(cs, p.Cat)
-		if v := violationOf(replayData{Mode: "case", Cat: p.Cat, Case: min}); v != nil {
+		e.minimised[k]++
+		min := minimise(cs, k)
+		if v := violationOf(replayData{Mode: "case", Key: k, Case: min}); v != nil {
 			e.c.Violate(prop, v.Key, v.What, json.RawMessage(v.Replay))
 		}
 	}
+}
+
+func (e *explorer) positionsOf(root *ChartDef) []pos {
+	k := root.Shape()
+	if ps, ok := e.posCache[k]; ok {
+		return ps
+	}
+	if e.posCache == nil {
+		e.posCache = map[string][]pos{}
+	}
+	e.posCache[k] = positions(root)
+	return e.posCache[k]
 }
 
 // one runs one case of family fam and records coverage.
@@ -204,7 +216,7 @@ func (e *explorer) cover(fam string, cs *Case, m *model, obs observed) {
 			}
 		}
 	}
-	for _, p := range positions(cs.Root) {
+	for _, p := range e.positionsOf(cs.Root) {
 		if p.Decoy {
 			if v, ok := getPath(holderMap(cs, p.Holder), p.Path); ok && asMap(v) != nil && len(asMap(v)) > 0 {
 				c.Floor("decoy-section-not-seen")
@@ -235,6 +247,7 @@ func (e *explorer) cover(fam string, cs *Case, m *model, obs observed) {
 }
 
 func run(c *core.Ctx) {
+	debug.SetGCPercent(400) // many small short-lived maps; the heap stays tiny
 	e := &explorer{c: c, minimised: map[string]int{}, samples: map[string]int{}}
 	th := c.Thorough()
 	var ts []tree
@@ -276,7 +289,11 @@ func run(c *core.Ctx) {
 		for _, t := range ts {
 			ps := positions(t.mk())
 			offs := offChoices(t)
-			emitV := func(atoms []atom) {
+			offsC := offs
+			if !th {
+				offsC = offs[:1] // quick: the two-position products run with every dependency on
+			}
+			emitV := func(atoms []atom, offs []string) {
 				for _, off := range offs {
 					nV++
 					if !c.NextMine() {
@@ -296,7 +313,7 @@ func run(c *core.Ctx) {
 					for i, p := range idx {
 						atoms[i] = atom{p, l}
 					}
-					emitV(atoms)
+					emitV(atoms, offs)
 				})
 			}
 			// (b) every set of <= atomsMax (leaf, position) atoms over all seven leaves
@@ -314,7 +331,7 @@ func run(c *core.Ctx) {
 				for i, u := range idx {
 					atoms[i] = universe[u]
 				}
-				emitV(atoms)
+				emitV(atoms, offs)
 			})
 			// (c) two positions, every pair of non-empty leaf subsets
 			subs := subsetsOf(mainLeaves)
@@ -332,7 +349,7 @@ func run(c *core.Ctx) {
 							for _, l := range s2 {
 								atoms = append(atoms, atom{p2, l})
 							}
-							emitV(atoms)
+							emitV(atoms, offsC)
 						}
 					}
 				}
@@ -456,29 +473,22 @@ func (e *explorer) differential(t tree) int {
 	ps := positions(t.mk())
 	r := instantiate(t.mk(), nil, nil)
 	allLeaves := append(append([]string{}, mainLeaves...), extraLeaves...)
-	innerKinds := [][]string{{"k"}, {"global.g", "global.t.x", "global.t.u.y"}, allLeaves}
+	// outer sections are empty or hold outerLeaves; the inner kinds add leaves
+	// the outer ones lack, so that anything escaping from d's values shows
+	outerLeaves := []string{"k", "shared", "global.g", "global.t.x", "global.t.u.x"}
+	innerKinds := [][]string{{"k"}, {"global.g", "global.t.y", "global.t.u.y"}, allLeaves}
 	for _, d := range allInsts(r)[1:] {
-		// definitions used only inside d's subtree
-		inside := map[string]bool{}
-		for _, n := range allInsts(r) {
-			if n == d || strings.HasPrefix(n.dotted(), d.dotted()+".") {
-				inside[n.def.Name] = true
-			}
-		}
-		for _, n := range allInsts(r) {
-			if !(n == d || strings.HasPrefix(n.dotted(), d.dotted()+".")) {
-				delete(inside, n.def.Name)
-			}
-		}
 		var inner, outer []int
 		for i, p := range ps {
-			owned := !p.Decoy && (p.Owner == d.dotted() || strings.HasPrefix(p.Owner, d.dotted()+"."))
-			switch {
-			case inside[p.Holder]:
+			all := true
+			for _, t := range p.Targets {
+				if !(t == d.dotted() || strings.HasPrefix(t, d.dotted()+".")) {
+					all = false
+				}
+			}
+			if all {
 				inner = append(inner, i)
-			case owned && !isDefOfSubtree(r, d, p.Holder):
-				inner = append(inner, i)
-			default:
+			} else {
 				outer = append(outer, i)
 			}
 		}
@@ -498,7 +508,7 @@ func (e *explorer) differential(t tree) int {
 			mk := func(iidx []int, leaves []string, off bool) *Case {
 				var atoms []atom
 				for _, o := range oidx {
-					for _, l := range allLeaves {
+					for _, l := range outerLeaves {
 						atoms = append(atoms, atom{outer[o], l})
 					}
 				}
@@ -538,30 +548,19 @@ func (e *explorer) differential(t tree) int {
 	return runs
 }
 
-// isDefOfSubtree: holder is the values.yaml of a chart used inside d's
-// subtree (and, being not in `inside`, also elsewhere): not d's alone.
-func isDefOfSubtree(r *inst, d *inst, holder string) bool {
-	for _, n := range allInsts(d) {
-		if n.def.Name == holder {
-			return true
-		}
-	}
-	return false
-}
-
 func (e *explorer) reportPair(base, v *Case, dep string, ps []problem) {
 	p := ps[0]
 	e.c.Outcome("FAIL:" + p.Cat)
-	if e.minimised["pair"] >= minimiseCap {
+	if e.minimised[p.key()] >= minimiseCap {
 		e.c.Count("failing_cases_not_minimised", 1)
 		return
 	}
-	e.minimised["pair"]++
+	e.minimised[p.key()]++
 	// shrink: drop value leaves (from both runs when both have them)
 	fails := func(b, x *Case) bool {
 		_, _, ob := judge(b)
 		_, _, ox := judge(x)
-		return hasCat(interference(b, x, dep, ob, ox), p.Cat) != nil
+		return hasKey(interference(b, x, dep, ob, ox), p.key()) != nil
 	}
 	drop := func(cs *Case, holder string, path []string) {
 		delPath(holderMap(cs, holder), path)
@@ -587,7 +586,7 @@ func (e *explorer) reportPair(base, v *Case, dep string, ps []problem) {
 			break
 		}
 	}
-	if viol := violationOf(replayData{Mode: "pair", Cat: p.Cat, Base: base, Variant: v, Dep: dep}); viol != nil {
+	if viol := violationOf(replayData{Mode: "pair", Key: p.key(), Base: base, Variant: v, Dep: dep}); viol != nil {
 		e.c.Violate(prop, viol.Key, viol.What, json.RawMessage(viol.Replay))
 	}
 }
